@@ -47,21 +47,26 @@ def one(job):
 
 
 def functions(path):
-    """crude: (first line, last line, signature) of every brace-delimited body whose opening brace follows a line ending in ')' / ') const' etc."""
+    """crude: (first line, last line, signature) of every brace-delimited body that follows a parameter list: '{' on its own line after
+    a line ending in ')' / ') const' ..., or at the end of such a line; control statements are skipped."""
     txt = open(path, errors='replace').read().split('\n')
     out, i = [], 0
+    ctl = re.compile(r'^\s*(\}\s*)?(if|for|while|switch|else|do|catch|try)\b')
+    sigend = r'\)\s*(const)?\s*(noexcept|MANIF_MOVE_NOEXCEPT)?\s*(->[^{;]*)?'
     while i < len(txt):
         s = txt[i].strip()
-        if s == '{' and i > 0 and re.search(r'\)\s*(const)?\s*(noexcept|MANIF_MOVE_NOEXCEPT)?\s*(->.*)?$', txt[i - 1].strip()) and not re.match(r'\s*(if|for|while|switch|else)\b', txt[i - 1]):
+        own = s == '{' and i > 0 and re.search(sigend + r'$', txt[i - 1].strip()) and not ctl.match(txt[i - 1])
+        eol = s.endswith('{') and s != '{' and re.search(sigend + r'\{$', s) and not ctl.match(s) and 'namespace' not in s and not s.startswith(('struct', 'class', 'template <', '#'))
+        if own or eol:
             depth, j = 0, i
             while j < len(txt):
                 depth += txt[j].count('{') - txt[j].count('}')
-                if depth == 0: break
+                if depth <= 0: break
                 j += 1
-            k = i - 1
+            k = i - 1 if own else i
             while k > 0 and txt[k - 1].strip() and not txt[k - 1].strip().endswith((';', '}', '{')) and i - k < 8: k -= 1
-            out.append((i + 1, j + 1, ' '.join(x.strip() for x in txt[k:i])[:160]))
-            i = j + 1
+            if j > i: out.append((i + 1, j + 1, ' '.join(x.strip() for x in txt[k:i + 1])[:160]))
+            i = j + 1 if j > i else i + 1
         else: i += 1
     return out
 
